@@ -440,7 +440,6 @@ theorem readAndCutStr_swap {o : Opt} (h : NoLfNulOpt o) (input : Bytes) :
   rw [this, records_swap]
   exact cutRecords_swap h _ _ _ _ _
 
-end Tuc
 
 /-! ## 5. The fast lane (`read_and_cut_text_as_bytes`) -/
 
@@ -522,31 +521,49 @@ theorem fastOutputLoop_map {o : FastOpt} (ho : FastFixed σ o) (e : EOL) (line :
     rw [Run.mapOut_seq, outputParts_map ho e line b (h (.bound b) (by simp)),
       fastOutputLoop_map ho e line fields t (fun b hb => h b (by simp [hb]))]
 
-theorem cutStrFastLaneCore_map (hσ : Function.Injective σ) {o : FastOpt} (ho : FastFixed σ o)
-    (e : EOL) (he : e.byte = σ o.eol.byte) (buf : Bytes) (lif : Side) :
-    cutStrFastLaneCore (buf.map σ) { o with eol := e } lif =
-      ((cutStrFastLaneCore buf o lif).1.mapOut (List.map σ), (cutStrFastLaneCore buf o lif).2) := by
-  have htrim : (match o.trim with
-      | some k => fastTrim (buf.map σ) k o.delimiter
-      | none => buf.map σ) =
-      (match o.trim with
-      | some k => fastTrim buf k o.delimiter
-      | none => buf).map σ := by
-    cases o.trim with
-    | none => rfl
-    | some k =>
-      have := fastTrim_map hσ buf k o.delimiter
-      rw [ho.delimiter] at this
-      exact this
-  have hscan : ∀ l : Bytes, fastScan o.delimiter lif 0 0 (l.map σ) = fastScan o.delimiter lif 0 0 l := by
-    intro l
-    have := fastScan_map hσ o.delimiter lif l 0 0
+/-- the `trim` step of `cut_str_fast_lane` -/
+def fastTrimOpt (buf : Bytes) (o : FastOpt) : Bytes :=
+  match o.trim with
+  | some k => fastTrim buf k o.delimiter
+  | none => buf
+
+/-- `cut_str_fast_lane` after the trim step -/
+def fastTail (buffer : Bytes) (opt : FastOpt) (lastInterestingField : Side) :
+    Run × Option (List Nat) :=
+  if buffer.isEmpty then
+    ((if !opt.onlyDelimited then Run.ok [opt.eol.byte] else Run.empty), none)
+  else
+    let (pushed, currField) := fastScan opt.delimiter lastInterestingField 0 0 buffer
+    let fields := 0 :: pushed
+    if currField == 0 && opt.onlyDelimited then (Run.empty, some fields)
+    else
+      let fields :=
+        if Side.some currField ≠ lastInterestingField then fields ++ [buffer.length + 1] else fields
+      ((fastOutputLoop buffer fields opt opt.bounds.list).seq (Run.ok [opt.eol.byte]), some fields)
+
+theorem cutStrFastLaneCore_eq_fastTail (buf : Bytes) (o : FastOpt) (lif : Side) :
+    cutStrFastLaneCore buf o lif = fastTail (fastTrimOpt buf o) o lif := rfl
+
+theorem fastTrimOpt_map (hσ : Function.Injective σ) {o : FastOpt} (ho : FastFixed σ o) (e : EOL)
+    (buf : Bytes) : fastTrimOpt (buf.map σ) { o with eol := e } = (fastTrimOpt buf o).map σ := by
+  unfold fastTrimOpt
+  cases h : o.trim with
+  | none => simp only
+  | some k =>
+    simp only
+    have := fastTrim_map hσ buf k o.delimiter
+    rw [ho.delimiter] at this
+    exact this
+
+theorem fastTail_map (hσ : Function.Injective σ) {o : FastOpt} (ho : FastFixed σ o)
+    (e : EOL) (he : e.byte = σ o.eol.byte) (ln : Bytes) (lif : Side) :
+    fastTail (ln.map σ) { o with eol := e } lif =
+      ((fastTail ln o lif).1.mapOut (List.map σ), (fastTail ln o lif).2) := by
+  have hscan : fastScan o.delimiter lif 0 0 (ln.map σ) = fastScan o.delimiter lif 0 0 ln := by
+    have := fastScan_map hσ o.delimiter lif ln 0 0
     rwa [ho.delimiter] at this
-  unfold cutStrFastLaneCore
-  simp only [htrim, List.isEmpty_map, he, hscan, List.length_map]
-  generalize (match o.trim with
-      | some k => fastTrim buf k o.delimiter
-      | none => buf) = ln
+  unfold fastTail
+  simp only [List.isEmpty_map, he, hscan, List.length_map]
   split
   · split <;> rfl
   · split
@@ -554,4 +571,130 @@ theorem cutStrFastLaneCore_map (hσ : Function.Injective σ) {o : FastOpt} (ho :
     · simp only [fastOutputLoop_map ho e ln _ _ ho.bounds, Run.mapOut_seq, Run.mapOut_ok,
         List.map_cons, List.map_nil]
 
+theorem cutStrFastLaneCore_map (hσ : Function.Injective σ) {o : FastOpt} (ho : FastFixed σ o)
+    (e : EOL) (he : e.byte = σ o.eol.byte) (buf : Bytes) (lif : Side) :
+    cutStrFastLaneCore (buf.map σ) { o with eol := e } lif =
+      ((cutStrFastLaneCore buf o lif).1.mapOut (List.map σ), (cutStrFastLaneCore buf o lif).2) := by
+  rw [cutStrFastLaneCore_eq_fastTail, cutStrFastLaneCore_eq_fastTail, fastTrimOpt_map hσ ho,
+    fastTail_map hσ ho e he]
+
 end fast
+
+def FastOpt.swapped (o : FastOpt) : FastOpt := { o with eol := o.eol.swap }
+
+/-- the domain of C11 for the fast lane -/
+structure NoLfNulFast (o : FastOpt) : Prop where
+  delimiter : o.delimiter ≠ 10 ∧ o.delimiter ≠ 0
+  fallbackOob : ∀ f, o.fallbackOob = some f → NoLfNul f
+  fillers : ∀ f, BoF.filler f ∈ o.bounds.list → NoLfNul f
+  fallbacks : ∀ b f, BoF.bound b ∈ o.bounds.list → b.fallback = some f → NoLfNul f
+
+theorem NoLfNulFast.fixed {o : FastOpt} (h : NoLfNulFast o) : FastFixed swapByte o where
+  delimiter := swapByte_of_ne h.delimiter.1 h.delimiter.2
+  fallbackOob := fun f hf => swap_of_noLfNul (h.fallbackOob f hf)
+  bounds := by
+    intro b hb
+    cases b with
+    | filler f => exact swap_of_noLfNul (h.fillers f hb)
+    | bound u => exact fun f hf => swap_of_noLfNul (h.fallbacks u f hb hf)
+
+theorem fastRecords_swap {o : FastOpt} (h : NoLfNulFast o) (lif : Side) :
+    ∀ (recs : List Bytes) (f f' : List Nat),
+      fastRecords o.swapped lif (recs.map swap) f = (fastRecords o lif recs f').mapOut swap
+  | [], _, _ => rfl
+  | r :: t, f, f' => by
+    have hc := cutStrFastLaneCore_map swapByte_injective h.fixed o.eol.swap (EOL.swap_byte o.eol) r lif
+    simp only [List.map_cons, fastRecords, cutStrFastLane, FastOpt.swapped]
+    rw [show swap r = r.map swapByte from rfl, hc]
+    simp only [swap, Run.mapOut_seq]
+    congr 1
+    exact fastRecords_swap h lif t _ _
+
+/-- **C11, fast lane.** -/
+theorem readAndCutFast_swap {o : FastOpt} (h : NoLfNulFast o) (input : Bytes) :
+    readAndCutFast o.swapped (swap input) = (readAndCutFast o input).mapOut swap := by
+  unfold readAndCutFast
+  have : o.swapped.eol.byte = swapByte o.eol.byte := EOL.swap_byte o.eol
+  rw [this, records_swap]
+  exact fastRecords_swap h _ _ _ _
+
+/-! ## 6. The fixed-memory cutter (`-M`, `cut_bytes_stream`) -/
+
+section stream
+variable {σ : UInt8 → UInt8}
+
+/-- every literal text of the `-M` options is fixed by `σ` -/
+structure StreamFixed (σ : UInt8 → UInt8) (o : StreamOpt) : Prop where
+  delimiter : σ o.delimiter = o.delimiter
+  replace : ∀ r, o.replaceDelimiter = some r → σ r = r
+  fallbackOob : ∀ f, o.fallbackOob = some f → f.map σ = f
+  bounds : ∀ b ∈ o.bounds, BoFFixed σ b
+
+def SState.map (σ : UInt8 → UInt8) (st : SState) : SState := { st with piece := st.piece.map σ }
+
+theorem StreamFixed.joiner {o : StreamOpt} (ho : StreamFixed σ o) : σ o.joiner = o.joiner := by
+  unfold StreamOpt.joiner
+  cases h : o.replaceDelimiter with
+  | none => simpa using ho.delimiter
+  | some r => simpa using ho.replace r h
+
+/-- first half of `print_bof`: a filler standing at `bof_idx` -/
+def printBofPre (o : StreamOpt) (bofIdx : Nat) : Bytes × Nat :=
+  match o.bounds[bofIdx]? with
+  | some (.filler f) => (f, bofIdx + 1)
+  | _ => ([], bofIdx)
+
+/-- second half of `print_bof` -/
+def printBofPost (o : StreamOpt) (w0 : Bytes) (i : Nat) (currField : Int) (trunc : Bool)
+    (piece : Bytes) (fieldComplete : Bool) : Option (Bytes × Nat) :=
+  match o.bounds[i]? with
+  | some (.bound b) =>
+    match b.matches currField with
+    | none => none
+    | some false => some (w0, i)
+    | some true =>
+      let prepend := !trunc && decide (currField > 1) && decide (b.l ≠ .some currField)
+      let w1 := (if prepend then [o.joiner] else []) ++ piece
+      if fieldComplete && decide (b.r = .some currField) then
+        some (w0 ++ w1 ++ (if o.join && !b.isLast then [o.joiner] else []), i + 1)
+      else some (w0 ++ w1, i)
+  | _ => some (w0, i)
+
+theorem printBof_eq (o : StreamOpt) (bofIdx : Nat) (currField : Int) (trunc : Bool) (piece : Bytes)
+    (fc : Bool) :
+    printBof o bofIdx currField trunc piece fc =
+      printBofPost o (printBofPre o bofIdx).1 (printBofPre o bofIdx).2 currField trunc piece fc := rfl
+
+theorem printBofPre_map {o : StreamOpt} (ho : StreamFixed σ o) (e : EOL) (bofIdx : Nat) :
+    printBofPre { o with eol := e } bofIdx = printBofPre o bofIdx ∧
+      (printBofPre o bofIdx).1.map σ = (printBofPre o bofIdx).1 := by
+  refine ⟨rfl, ?_⟩
+  unfold printBofPre
+  split
+  · rename_i f hf
+    exact ho.bounds _ (List.mem_of_getElem? hf)
+  · rfl
+
+theorem printBofPost_map {o : StreamOpt} (ho : StreamFixed σ o) (e : EOL) (w0 : Bytes) (i : Nat)
+    (currField : Int) (trunc : Bool) (piece : Bytes) (fc : Bool) (hw0 : w0.map σ = w0) :
+    printBofPost { o with eol := e } w0 i currField trunc (piece.map σ) fc =
+      (printBofPost o w0 i currField trunc piece fc).map (fun p => (p.1.map σ, p.2)) := by
+  have hj : ({ o with eol := e } : StreamOpt).joiner = o.joiner := rfl
+  simp only [printBofPost, hj]
+  split
+  · split
+    · rfl
+    · simp [hw0]
+    · split <;> (simp only [Option.map_some, List.map_append, hw0]; congr 3 <;> split <;> simp [ho.joiner])
+  · simp [hw0]
+
+theorem printBof_map {o : StreamOpt} (ho : StreamFixed σ o) (e : EOL) (bofIdx : Nat)
+    (currField : Int) (trunc : Bool) (piece : Bytes) (fc : Bool) :
+    printBof { o with eol := e } bofIdx currField trunc (piece.map σ) fc =
+      (printBof o bofIdx currField trunc piece fc).map (fun p => (p.1.map σ, p.2)) := by
+  rw [printBof_eq, printBof_eq, (printBofPre_map ho e bofIdx).1,
+    printBofPost_map ho e _ _ _ _ _ _ (printBofPre_map ho e bofIdx).2]
+
+end stream
+
+end Tuc
